@@ -667,7 +667,13 @@ pub enum SmallCase {
 fn small_strategy(_: &Ctx) -> BoxedStrategy<SmallCase> {
     let plate = || (prop_oneof![3 => -64i16..64, 1 => any::<i16>()], prop_oneof![3 => -64i16..64, 1 => any::<i16>()]);
     prop_oneof![
-        2 => (vec(vec(any::<u32>(), 14), 0..=40), any::<u64>(), 0u8..56).prop_map(|(rows, prefix_seed, tail)| SmallCase::Cmp { rows, prefix_seed, tail }),
+        // scaling rows: arbitrary bit patterns, with zeros (+0.0 / -0.0) and ones common, and whole rows of zeros
+        2 => (
+            vec(prop_oneof![8 => vec(prop_oneof![6 => any::<u32>(), 1 => Just(0u32), 1 => Just(0x8000_0000u32), 1 => Just(0x3F80_0000u32)], 14), 1 => Just(vec![0u32; 14]), 1 => Just(vec![0x8000_0000u32; 14])], 0..=40),
+            any::<u64>(),
+            0u8..56,
+        )
+            .prop_map(|(rows, prefix_seed, tail)| SmallCase::Cmp { rows, prefix_seed, tail }),
         2 => (any::<u32>(), prop_oneof![2 => Just(128u32), 1 => 0u32..4096, 1 => any::<u32>()], any::<u32>(), any::<u32>(), vec(plate(), 0..=60), 0u8..9).prop_map(|(version, plate_size, clip, unknown, plates, trailing)| SmallCase::TeraRead { version, plate_size, clip, unknown, plates, trailing }),
         2 => vec(plate(), 0..=60).prop_map(|plates| SmallCase::TeraWrite { plates }),
         2 => (prop_oneof![1 => Just(u32::from_le_bytes(*b"LGB1")), 1 => any::<u32>()], prop_oneof![1 => Just(u32::from_le_bytes(*b"LGP1")), 1 => any::<u32>()], any::<i32>(), prop_oneof![3 => gen::from_alphabet("abcdefghijklmnopqrstuvwxyzABCDEFGHIJKLMNOPQRSTUVWXYZ0123456789_ -", 0, 32), 1 => (1u8..0x7f).prop_map(|b| (b as char).to_string())]).prop_map(|(file_id, chunk_id, group_id, name)| SmallCase::Lgb { file_id, chunk_id, group_id, name }),
@@ -817,7 +823,7 @@ fn pre(ctx: &Ctx) {
 pub fn property() -> Property {
     Property {
         id: "C16",
-        rule: "skeletons: three container versions with the Havok payload at a random offset (every 16th 32-bit-offset container: beyond 64 KiB); tag file written by the harness: file info, generated type table (the needed classes with their members in random positions among extra members of every scalar / array / tuple kind, parent types, unused extra types), root container with several named variants (the animation container at a random position), animation container, 1..2 skeletons (the first is asserted), 1..40 bones with forest hierarchy (-1 roots), names up to 130 bytes, 12-float poses with arbitrary bit patterns, string back-references on / off, non-minimal packed integers. pbd: 1..12 body ids, parent links forming a forest, child / sibling links, item and link tables independently permuted, 0..6 bones each with out-of-line names and 4x3 matrices; queries over all ordered pairs (asserted when the start node has a sibling link and the target is a proper ancestor; same id -> None). cmp: 0x2a800 prefix + 0..40 rows of 14 floats (+ partial trailing row). tera: arbitrary plate size on read (position = plate_size * (x + 0.5), relative tolerance 1e-6; file names NNNN.mdl), 128-grid positions on write decoded by an own reader and parsed back. lgb: empty layer groups with any ids and ASCII name: own encoding -> parse, library write = own encoding byte for byte (incl. the checked-in empty_planlive.lgb), write -> read. Non-trivial: skeleton with >= 3 bones and >= 1 extra member or type; pbd with an asserted query and a chain of length >= 2; >= 2 rows / plates; non-empty name. Distinct by hash of the file.",
+        rule: "skeletons: three container versions with the Havok payload at a random offset (every 16th 32-bit-offset container: beyond 64 KiB); tag file written by the harness: file info, generated type table (the needed classes with their members in random positions among extra members of every scalar / array / tuple kind, parent types, unused extra types), root container with several named variants (the animation container at a random position), animation container, 1..2 skeletons (the first is asserted), 1..40 bones with forest hierarchy (-1 roots), names up to 130 bytes, 12-float poses with arbitrary bit patterns, string back-references on / off, non-minimal packed integers. pbd: 1..12 body ids, parent links forming a forest, child / sibling links, item and link tables independently permuted, 0..6 bones each with out-of-line names and 4x3 matrices; queries over all ordered pairs (asserted when the start node has a sibling link and the target is a proper ancestor; same id -> None). cmp: 0x2a800 prefix + 0..40 rows of 14 floats (arbitrary bit patterns, zeros and ones common, whole rows of +0.0 / -0.0) (+ partial trailing row). tera: arbitrary plate size on read (position = plate_size * (x + 0.5), relative tolerance 1e-6; file names NNNN.mdl), 128-grid positions on write decoded by an own reader and parsed back. lgb: empty layer groups with any ids and ASCII name: own encoding -> parse, library write = own encoding byte for byte (incl. the checked-in empty_planlive.lgb), write -> read. Non-trivial: skeleton with >= 3 bones and >= 1 extra member or type; pbd with an asserted query and a chain of length >= 2; >= 2 rows / plates; non-empty name. Distinct by hash of the file.",
         assumptions: &["tag-file members the reader has no default for (REAL / STRING scalars, vector arrays) are always present; tuple members always absent; struct element types have at most one parent level with members (object classes: up to two)", "pbd queries whose start node has no sibling link, or whose target is not an ancestor, are not asserted"],
         pre: Some(pre),
         post: None,
